@@ -34,6 +34,9 @@ class Lemmas:
             if one and self.is_count(b, a, ob):
                 return self.note("L-COUNT") + ": a count of queue elements / iterations (+1); bounded under assumption A1 (< 2^32 samples per track and fragments per muxer)"
         if k == "overflow:Sub":
+            l = self.sorted_difference(ob, b, t, cxs)
+            if l:
+                return l
             m = t["msg"]
             a, c = sym.expr(b, m["a"]), sym.expr(b, m["b"])
             if a[0] == "const" and isinstance(a[1], int) and c[0] == "load" and isinstance(c[1], str) and c[1].startswith("arg1.") and c[1].count(".") == 1:
@@ -236,6 +239,162 @@ class Lemmas:
         return None
 
     # ------------------------------------------------------------------------------------------
+    def sorted_difference(self, ob, b, t, cxs):
+        """L-SORTED: `x[j].f - x[i].f` with j >= i where x is (on every call path) a sample queue whose writer only appends
+        elements with f >= the f of the previously appended element"""
+        m = t["msg"]
+        a, c = sym.expr(b, m["a"]), sym.expr(b, m["b"])
+        if not (a[0] == "load" and c[0] == "load" and a[1] == c[1] and isinstance(a[1], str) and ".[]." in a[1] and a[1].startswith("arg")):
+            return None
+        root = a[1].split(".")[0]
+        if not root[3:].isdigit() or a[1].split(".")[1:-1] != ["[]"]:
+            return None
+        k = int(root[3:])
+        fld = a[1].split(".")[-1]
+        cx = cxs.get(ob.fn) or A.Ctx(b, self.u, self.st.sites.get(ob.fn))
+        # index of each operand: explicit index expression, or the enumerate index of the loop whose element it is
+        enum = None
+        for x in (a, c):
+            if len(x) > 3:
+                for y in [z for ie in x[3] for z in sym.walk(ie)]:
+                    if isinstance(y, tuple) and y and y[0] == "proj":
+                        ei = cx.enum_index(y)
+                        if ei is not None and ei[0] is not None:
+                            base = ei[0]
+                            while base[0] == "ref":
+                                base = base[1]
+                            if enum is None and (base[0] in ("arg",) and base[1] == k or (base[0] in ("refplace", "load") and base[1] == root)):
+                                enum = y
+        def index_of(x):
+            if len(x) > 3 and len(x[3]) == 1:
+                return cx.lin(x[3][0])
+            if len(x) == 3 and enum is not None:
+                return cx.lin(enum)
+            return None
+        ia, ic = index_of(a), index_of(c)
+        if ia is None or ic is None:
+            return None
+        ok, h = cx.prove_le0(ic - ia, ob.bb)          # index of the subtrahend <= index of the minuend
+        if not ok:
+            return None
+        q = self.param_is_sorted_queue(ob.fn, k, fld, 0)
+        if not q:
+            return None
+        return self.note("L-SORTED") + ": elements of `%s` are appended in non-decreasing `%s` order (guard at the only push site, watermark updated with the pushed value); the minuend's index is >= the subtrahend's (%s)" % (q, fld, h)
+
+    def param_is_sorted_queue(self, fn, k, fld, depth):
+        """every call path hands the sorted queue (or a whole-value `take` of it) to parameter k of fn: returns its name"""
+        if depth > 6:
+            return None
+        sites = A._call_sites(self.u, fn)
+        if not sites:
+            return None
+        names = set()
+        for (p, cb, bb, args) in sites:
+            if k - 1 >= len(args):
+                return None
+            x = args[k - 1]
+            while x[0] in ("ref",) or (x[0] == "call" and x[1].split("::")[-1] in ("deref", "as_slice") and x[2]) or (x[0] == "cast" and str(x[1]).startswith("PointerCoercion")):
+                x = x[1] if x[0] == "ref" else (x[2][0] if x[0] == "call" else x[4])
+            if x[0] == "call" and x[1] in ("std::mem::take", "core::mem::take") and x[2]:
+                x = x[2][0]
+                while x[0] == "ref":
+                    x = x[1]
+            if x[0] in ("refplace", "load") and isinstance(x[1], str) and x[1].startswith("arg") and x[1][3:].isdigit():
+                x = ("arg", int(x[1][3:]), x[1])
+            if x[0] == "arg":
+                r = self.param_is_sorted_queue(p, x[1], fld, depth + 1)
+                if not r:
+                    return None
+                names.add(r)
+            elif x[0] in ("refplace", "load") and isinstance(x[1], str) and x[1].startswith("arg1.") and x[1].count(".") == 1:
+                owner = self.u.bodies[p].get("impl_self", "")
+                r = self.queue_sorted(owner, x[1].split(".")[1], fld)
+                if not r:
+                    return None
+                names.add(r)
+            else:
+                return None
+        return names.pop() if len(names) == 1 else None
+
+    def queue_sorted(self, owner, q, fld):
+        """self.<q> of type `owner` only grows by push of an element whose `fld` is >= a watermark field that is then set to it"""
+        cache = self.__dict__.setdefault("_qs", {})
+        key = (owner, q, fld)
+        if key in cache:
+            return cache[key]
+        cache[key] = None
+        pushes = []
+        for p, b in self.u.bodies.items():
+            if b["in_test_cfg"] or b.get("impl_self", "") != owner:
+                continue
+            for (bb, i, (root, path), why, node) in self.st.sites.get(p, []):
+                if root == ("arg", 1) and path == (q,):
+                    if why.endswith("Vec::push"):
+                        pushes.append((p, bb, node))
+                    elif why.startswith("extcall std::mem::take") or why.startswith("extcall core::mem::take") or why.endswith("Vec::clear"):
+                        continue          # emptying keeps the order of whatever is appended later w.r.t. the watermark
+                    elif why.startswith("call "):
+                        continue          # accounted for in the callee
+                    else:
+                        return None
+        if len(pushes) != 1:
+            return None
+        p, bb, node = pushes[0]
+        b = self.u.bodies[p]
+        val = sym.expr(b, node["args"][1])
+        if not (val[0] == "agg" and fld in (val[2] or ())):
+            return None
+        pushed = val[3][list(val[2]).index(fld)]
+        cx = A.Ctx(b, self.u, self.st.sites.get(p))
+        # watermark: a field W with a store `W = Some(pushed)` (or `= pushed`) dominating the push, and a guard `pushed >= W.0` before it
+        wm = None
+        for (sbb, i, (root, path), why, nd) in self.st.sites.get(p, []):
+            if root == ("arg", 1) and len(path) == 1 and path[0] != q and why.startswith("assign") and nd.get("k") == "assign":
+                e = sym.expr_rv(b, nd["rv"])
+                inner = e[3][0] if (e[0] == "agg" and str(e[1]).endswith("Option::Some") and e[3]) else e
+                if inner == pushed and (sbb in cx.dom.get(bb, ()) or sbb == bb):
+                    wm = (path[0], sbb)
+        if wm is None:
+            return None
+        # every store to the watermark in the whole type is that one
+        for p2, b2 in self.u.bodies.items():
+            if b2["in_test_cfg"] or b2.get("impl_self", "") != owner:
+                continue
+            for (sbb, i, (root, path), why, nd) in self.st.sites.get(p2, []):
+                if root == ("arg", 1) and path[:1] == (wm[0],) and not (p2 == p and sbb == wm[1]) and not why.startswith("call "):
+                    return None
+        # guard before the watermark update: not(pushed < W.0) on the Some arm
+        from .. import guards as G
+        ok = False
+        for (s_, d, tk) in G.guards_of(b, wm[1]):
+            pass
+        edges = []
+        # the update block is reached either with W == None, or with the comparison `pushed < W` false
+        def cond_ok(d, tk):
+            tr = G.truth(tk)
+            if d[0] == "bin" and d[1] in ("Lt", "Gt", "Le", "Ge") and tr is not None:
+                lhs, rhs = d[2], d[3]
+                wside = lambda x: any(isinstance(y, tuple) and len(y) > 1 and y[0] in ("load", "proj") and ("arg1." + wm[0]) in str(y) for y in sym.walk(x))
+                if lhs == pushed and wside(rhs):
+                    return (d[1] == "Lt" and tr is False) or (d[1] == "Ge" and tr is True)
+                if rhs == pushed and wside(lhs):
+                    return (d[1] == "Gt" and tr is False) or (d[1] == "Le" and tr is True)
+            return False
+        from . import c12
+        inc = c12._incoming_edges(cx, wm[1])
+        if not inc:
+            return None
+        for (pb, d, tk) in inc:
+            if cond_ok(d, tk):
+                continue
+            # the None arm of `if let Some(last) = self.W`
+            if d[0] == "discr" and ("arg1." + wm[0]) in str(d) and (tk == ("eq", "0") or (tk[0] == "ne" and list(tk[1]) == ["1"])):
+                continue
+            return None
+        cache[key] = "%s.%s" % (owner.split("::")[-1].split("<")[0], q)
+        return cache[key]
+
     def offset_cursor(self, ob, b, t, cxs):
         """L-CURSOR: `cursor += len(sample.data) as u32` inside the schedule loop.  Reviewed argument: the schedule holds every
         (track, index) pair once (L-SCHEDULE), so cursor <= start + sum of all payload lengths; machine-checked side conditions:
